@@ -1,5 +1,7 @@
 import NdnProofs.Lemmas.SegFetch
 import NdnProofs.Lemmas.SegFetchNames
+import NdnProofs.Lemmas.SegFetchTimed
+import NdnProofs.Props.C03
 import NdnProofs.Props.C09
 import NdnGen.C19
 /-!
@@ -771,5 +773,343 @@ example : FbiBound exSegs := by
     rcases j with _ | _ | _ | _ | j <;> simp [exSegs] at hs <;> subst hs <;> simp at hk <;> omega
   omega
 end Examples
+
+end Ndn.C19
+
+/-!
+# C19, timed: the generator over the pending-Interest table, answers that take time
+
+Theorems about `Ndn.SegFetchT.fetchT` (`NdnModel/SegFetchTimed.lean`): the same generator, but every Interest is
+expressed in the C03 model of the legacy pending-Interest table (`Ndn.Pit`, `FrontEnd.v1`) with the lifetime the fetcher
+passes, and the producer's answer to the `n`-th Interest (Data / nothing / Nack / Data the validator rejects) reaches the
+consumer after a scripted delay - **any** delay: below, at or beyond the lifetime.  An answer that comes too late for its
+own Interest is handed to the table all the same; it satisfies whatever Interest is pending under a name it matches
+(the retry of the same request: same name), or nothing.
+
+Specification vocabulary (`NdnProofs/Lemmas/SegFetchTimed.lean`; the first two use the C03 vocabulary `Pit.Matches` /
+`Pit.Named`):
+* `react r p` - the outcome packet `p` resolves a waiting request `r` with, if it concerns it;
+* `scan r dl flight` - what an Interest with request `r` and deadline `dl` comes to: the first packet in flight that arrives
+  before `dl` and concerns `r` decides, earlier packets that do not concern it are dropped, a packet arriving at `dl` or
+  later stays in flight and the Interest times out;
+* `WInv` - between two Interests the table is a reachable state of the C03 model with nothing pending;
+* `Prompt life script` - every scripted answer arrives within the lifetime of its own Interest;
+* the log `(request, outcome of its awaitable)` of every Interest, `Benign` = timed out or returned valid Data.
+-/
+namespace Ndn.C19
+open Ndn Ndn.SegFetch Ndn.SegFetchT
+
+/-- **timed_interest_outcome.**  One `await app.express_interest(...)` of the fetcher over the pending-Interest table,
+    started with nothing pending: the awaitable comes to exactly what `scan` says of the packets in flight (the scripted
+    answer to this Interest included) - the first packet that arrives before the deadline `now + lifetime` and concerns
+    the request, *whichever Interest it was sent in answer to*; an answer arriving at the deadline or later is not seen
+    and stays in flight (for the retry, if there is one); lifetime 0 times out at once.  Afterwards nothing is pending
+    again, the table is still a reachable state of the C03 model, and no callback raised. -/
+theorem timed_interest_outcome (C : Cfg) (w : World) (q : Req) (hw : WInv C w) :
+    WInv C (ask C w q).2 ∧ (ask C w q).2.σ.errs = w.σ.errs ∧
+    (ask C w q).1 = (if C.life = 0 then .timeout
+      else (scan (reqOf C w.σ.clock q) (w.σ.clock + C.life) (flightWith C w q)).1) ∧
+    (ask C w q).2.fl = (if C.life = 0 then flightWith C w q
+      else (scan (reqOf C w.σ.clock q) (w.σ.clock + C.life) (flightWith C w q)).2) := by
+  obtain ⟨h1, _, h3, h4, h5⟩ := ask_spec C w q hw
+  exact ⟨h1, h3, h4, h5⟩
+
+/-- **timed_data_is_genuine.**  Whatever Data an Interest of the fetcher is satisfied with - the answer to that very
+    Interest or a late answer to an earlier one - it is a Data of the object under a name the Interest matches: for the
+    Interest for segment `i` the Data of segment `i`, for the discovery Interest a Data of some existing segment (of the
+    unsegmented object).  Nothing but Data, Nack or timeout ever comes out of an awaitable. -/
+theorem timed_data_is_genuine (C : Cfg) (w : World) (q : Req) (hw : WInv C w) : Genuine C.obj q (ask C w q).1 :=
+  (ask_ok C w q hw).2
+
+/-- **timed_terminates.** The fuel given by `fetchT` always suffices, whatever the delays. -/
+theorem timed_terminates (S : SegFetchT.Scenario) : (fetchT S).1.end_ ≠ .fuel := by
+  obtain ⟨⟨pre, req, j, last, _, _, g4, _, _⟩, _⟩ :=
+    SegFetchT.fetch_good (ask S.cfg) (ask_ok S.cfg) S.limit _ (winv_init S.cfg S.script)
+  intro h
+  have h' : (fetchG (ask S.cfg) S.cfg.obj S.limit ({ script := S.script } : World)).1.end_ = .fuel := h
+  rw [h'] at g4
+  exact g4
+
+/-- **timed_yields_in_order.**  For every delay pattern, whatever is lost, late, nacked or invalid: what the fetch has
+    yielded when it ends is an initial run of the segments in order, each once, never going beyond the segment
+    designated final - and it is the whole run `0 … f` exactly when the fetch finishes normally.  Without a final segment
+    the fetch never finishes normally.  (Whichever segment answers the discovery Interest.) -/
+theorem timed_yields_in_order (cfg : Cfg) (segs : List Seg) (limit : Nat) (sc : List (Outcome × Nat))
+    (hobj : cfg.obj = .segs segs) :
+    (∀ f, IsFinal segs f → ∃ n, n ≤ f + 1 ∧ (fetchT ⟨cfg, limit, sc⟩).1.yielded = contents (segs.take n) ∧
+      ((fetchT ⟨cfg, limit, sc⟩).1.end_ = .done ↔ n = f + 1)) ∧
+    (NoFinal segs → (fetchT ⟨cfg, limit, sc⟩).1.end_ ≠ .done ∧
+      ∃ n, (fetchT ⟨cfg, limit, sc⟩).1.yielded = contents (segs.take n)) := by
+  have hA : AskOk (ask cfg) (.segs segs) (WInv cfg) := hobj ▸ ask_ok cfg
+  have hT : fetchT ⟨cfg, limit, sc⟩ = fetchG (ask cfg) (.segs segs) limit ({ script := sc } : World) := by
+    simp only [fetchT, hobj]
+  obtain ⟨n, y, hb, h3, h4⟩ := fetch_yield_segs (ask cfg) hA limit _ (winv_init cfg sc)
+  rw [hT]
+  refine ⟨?_, ?_⟩
+  · intro f ⟨⟨sf, hsf, hsff⟩, hbefore⟩
+    have hself : SelfFinal segs f := ⟨sf, hsf, hsff⟩
+    have hnot : ∀ k, k < f → ¬ SelfFinal segs k := fun k hk ⟨s, e1, e2⟩ => hbefore k s hk e1 e2
+    have hle : n ≤ f + 1 := by
+      rcases Nat.lt_or_ge f n with hlt | hge
+      · have := (h3 f hlt hself).1; omega
+      · omega
+    refine ⟨n, hle, y, ?_, ?_⟩
+    · intro hd
+      obtain ⟨e1, e2⟩ := h4 hd
+      rcases Nat.lt_or_ge (n - 1) f with hlt | hge
+      · exact absurd e2 (hnot _ hlt)
+      · omega
+    · intro hn
+      exact (h3 f (by omega) hself).2
+  · intro hno
+    refine ⟨?_, n, y⟩
+    intro hd
+    obtain ⟨_, s, e1, e2⟩ := h4 hd
+    exact hno _ s e1 e2
+
+/-- **timed_unsegmented.** An unsegmented object yields its single content exactly when the fetch finishes normally,
+    and nothing otherwise. -/
+theorem timed_unsegmented (cfg : Cfg) (c limit : Nat) (sc : List (Outcome × Nat)) (hobj : cfg.obj = .unseg c) :
+    ((fetchT ⟨cfg, limit, sc⟩).1.end_ = .done → (fetchT ⟨cfg, limit, sc⟩).1.yielded = [c]) ∧
+    ((fetchT ⟨cfg, limit, sc⟩).1.end_ ≠ .done → (fetchT ⟨cfg, limit, sc⟩).1.yielded = []) := by
+  have hA : AskOk (ask cfg) (.unseg c) (WInv cfg) := hobj ▸ ask_ok cfg
+  have hT : fetchT ⟨cfg, limit, sc⟩ = fetchG (ask cfg) (.unseg c) limit ({ script := sc } : World) := by
+    simp only [fetchT, hobj]
+  rw [hT]
+  exact fetch_yield_unseg (ask cfg) hA limit _ (winv_init cfg sc)
+
+/-- **timed_timeout_iff.**  The fetch fails with a timeout exactly when some request exhausted its attempts as the code
+    counts them: the log ends with `attempts limit` Interests for one and the same request whose awaitables all timed out
+    (an Interest whose own answer came too late but which was satisfied by a late answer to an earlier attempt did *not*
+    time out; one whose answer arrives at the deadline or later did). -/
+theorem timed_timeout_iff (S : SegFetchT.Scenario) :
+    (fetchT S).1.end_ = .timeout ↔
+      ∃ pre req, (fetchT S).1.log = pre ++ List.replicate (attempts S.limit) (req, Pit.Outcome.timeout) := by
+  obtain ⟨⟨pre, req, j, last, g2, _, g4, g5, g6⟩, _⟩ :=
+    SegFetchT.fetch_good (ask S.cfg) (ask_ok S.cfg) S.limit _ (winv_init S.cfg S.script)
+  have hlast : (fetchT S).1.log.getLast? = some (req, last) := by
+    show (fetchG (ask S.cfg) S.cfg.obj S.limit ({ script := S.script } : World)).1.log.getLast? = _
+    rw [g2]; simp
+  constructor
+  · intro h
+    have h' : (fetchG (ask S.cfg) S.cfg.obj S.limit ({ script := S.script } : World)).1.end_ = .timeout := h
+    rw [h'] at g4
+    refine ⟨pre, req, ?_⟩
+    show (fetchG (ask S.cfg) S.cfg.obj S.limit ({ script := S.script } : World)).1.log = _
+    have hl : last = Pit.Outcome.timeout := g4
+    rw [g2, ← g5 h', hl]
+    simp [List.replicate_succ']
+  · rintro ⟨pre', req', h⟩
+    obtain ⟨n, hn⟩ : ∃ n, attempts S.limit = n + 1 := ⟨attempts S.limit - 1, by have := attempts_pos S.limit; omega⟩
+    have h1 : (fetchT S).1.log.getLast? = some (req', Pit.Outcome.timeout) := by
+      rw [h, hn, List.replicate_succ']; simp
+    rw [hlast] at h1
+    have hl : last = Pit.Outcome.timeout := (Prod.mk.inj (Option.some.inj h1)).2
+    rw [hl] at g4
+    show (fetchG (ask S.cfg) S.cfg.obj S.limit ({ script := S.script } : World)).1.end_ = .timeout
+    cases he : (fetchG (ask S.cfg) S.cfg.obj S.limit ({ script := S.script } : World)).1.end_ <;>
+      rw [he] at g4 <;> simp [endOK] at g4 <;> rfl
+
+/-- **timed_propagates.**  A Nack, or Data that fails validation, that reaches a pending Interest of the fetcher - in
+    answer to it or as a late answer to an earlier attempt - is never skipped: that Interest is the last one the fetch
+    sends and the fetch ends with that very failure; conversely the fetch ends that way only then. -/
+theorem timed_propagates (S : SegFetchT.Scenario) :
+    (∀ req rs, (req, Pit.Outcome.nack rs) ∈ (fetchT S).1.log →
+        (fetchT S).1.end_ = .nack ∧ (fetchT S).1.log.getLast? = some (req, Pit.Outcome.nack rs)) ∧
+    (∀ req d, idValid d = false → (req, Pit.Outcome.data d) ∈ (fetchT S).1.log →
+        (fetchT S).1.end_ = .invalid ∧ (fetchT S).1.log.getLast? = some (req, Pit.Outcome.data d)) ∧
+    ((fetchT S).1.end_ = .nack → ∃ req rs, (fetchT S).1.log.getLast? = some (req, Pit.Outcome.nack rs)) ∧
+    ((fetchT S).1.end_ = .invalid → ∃ req d, idValid d = false ∧
+        (fetchT S).1.log.getLast? = some (req, Pit.Outcome.data d)) := by
+  obtain ⟨⟨pre, req, j, last, g2, g3, g4, _, _⟩, _⟩ :=
+    SegFetchT.fetch_good (ask S.cfg) (ask_ok S.cfg) S.limit _ (winv_init S.cfg S.script)
+  have hT : (fetchT S).1 = (fetchG (ask S.cfg) S.cfg.obj S.limit ({ script := S.script } : World)).1 := rfl
+  rw [hT]
+  have hlast : (fetchG (ask S.cfg) S.cfg.obj S.limit ({ script := S.script } : World)).1.log.getLast? = some (req, last) := by
+    rw [g2]; simp
+  have key : ∀ req' o, ¬ Benign o →
+      (req', o) ∈ (fetchG (ask S.cfg) S.cfg.obj S.limit ({ script := S.script } : World)).1.log → req' = req ∧ o = last := by
+    intro req' o ho hm
+    rw [g2] at hm
+    rcases List.mem_append.mp hm with h | h
+    · exact absurd (g3 _ h) ho
+    · rcases List.mem_append.mp h with h | h
+      · have := (List.mem_replicate.mp h).2
+        exact absurd (.inl (Prod.mk.inj this).2) ho
+      · have := List.mem_singleton.mp h
+        exact ⟨(Prod.mk.inj this).1, (Prod.mk.inj this).2⟩
+  refine ⟨?_, ?_, ?_, ?_⟩
+  · intro req' rs hm
+    obtain ⟨e1, e2⟩ := key req' _ (by simp [Benign]) hm
+    refine ⟨?_, by rw [hlast, e1, e2]⟩
+    rw [← e2] at g4
+    cases he : (fetchG (ask S.cfg) S.cfg.obj S.limit ({ script := S.script } : World)).1.end_ <;>
+      rw [he] at g4 <;> simp [endOK] at g4 <;> rfl
+  · intro req' d hv hm
+    obtain ⟨e1, e2⟩ := key req' _ (by simp [Benign, hv]) hm
+    refine ⟨?_, by rw [hlast, e1, e2]⟩
+    rw [← e2] at g4
+    cases he : (fetchG (ask S.cfg) S.cfg.obj S.limit ({ script := S.script } : World)).1.end_ <;>
+      rw [he] at g4 <;> simp [endOK, hv] at g4 <;> rfl
+  · intro h
+    rw [h] at g4
+    obtain ⟨rs, hrs⟩ := g4
+    exact ⟨req, rs, by rw [hlast, hrs]⟩
+  · intro h
+    rw [h] at g4
+    obtain ⟨d, hd, hv⟩ := g4
+    exact ⟨req, d, hv, by rw [hlast, hd]⟩
+
+/-- **timed_requests_bounded.** No request is sent more often than the configured number of attempts, whatever the
+    delays. -/
+theorem timed_requests_bounded (S : SegFetchT.Scenario) (req : Req) :
+    ((fetchT S).1.log.filter (fun e => decide (e.1 = req))).length ≤ attempts S.limit :=
+  fetch_count (ask S.cfg) (ask_ok S.cfg) S.limit _ (winv_init S.cfg S.script) req
+
+/-- **timed_yields_all_once_in_order.**  For every delay pattern: when every awaitable of the fetch timed out or returned
+    valid Data (no Nack, no invalid Data reached a pending Interest) and no request had `attempts limit` awaitables time
+    out in a row, the fetch yields the contents of segments `0, 1, …, f` (the segment designated final), each exactly once
+    and in order, and finishes normally - whichever segment answered the discovery Interest, and whichever attempt's answer
+    it was that satisfied each Interest. -/
+theorem timed_yields_all_once_in_order (cfg : Cfg) (segs : List Seg) (limit f : Nat) (sc : List (Outcome × Nat))
+    (hobj : cfg.obj = .segs segs) (hfin : IsFinal segs f)
+    (hben : ∀ e ∈ (fetchT ⟨cfg, limit, sc⟩).1.log, Benign e.2)
+    (hnot : ¬ ∃ pre req, (fetchT ⟨cfg, limit, sc⟩).1.log = pre ++ List.replicate (attempts limit) (req, Pit.Outcome.timeout)) :
+    (fetchT ⟨cfg, limit, sc⟩).1.yielded = contents (segs.take (f + 1)) ∧ (fetchT ⟨cfg, limit, sc⟩).1.end_ = .done := by
+  have hdone : (fetchT ⟨cfg, limit, sc⟩).1.end_ = .done := by
+    obtain ⟨p1, p2, p3, p4⟩ := timed_propagates ⟨cfg, limit, sc⟩
+    cases he : (fetchT ⟨cfg, limit, sc⟩).1.end_ with
+    | done => rfl
+    | fuel => exact absurd he (timed_terminates _)
+    | timeout => exact absurd ((timed_timeout_iff ⟨cfg, limit, sc⟩).mp he) hnot
+    | nack =>
+      obtain ⟨req, rs, hl⟩ := p3 he
+      have := hben _ (List.mem_of_getLast? hl)
+      simp [Benign] at this
+    | invalid =>
+      obtain ⟨req, d, hv, hl⟩ := p4 he
+      have := hben _ (List.mem_of_getLast? hl)
+      simp [Benign, hv] at this
+  obtain ⟨n, _, y, hiff⟩ := (timed_yields_in_order cfg segs limit sc hobj).1 f hfin
+  exact ⟨by rw [y, hiff.mp hdone], hdone⟩
+
+/-- **timed_refines_untimed.**  When every scripted answer arrives within the lifetime of its own Interest (any delay
+    below the lifetime; in particular delays 0, and answers that never come) the generator over the pending-Interest table
+    yields the same contents, sends the same requests with the same outcomes and ends the same way as the untimed model
+    `SegFetch.fetch` run on the script of outcomes: the theorems about `fetch` are theorems about `fetchT`. -/
+theorem timed_refines_untimed (S : SegFetchT.Scenario) (hlife : 0 < S.cfg.life) (hp : Prompt S.cfg.life S.script) :
+    (fetchT S).1.yielded = (fetch ⟨S.cfg.obj, S.cfg.disc, S.script.map Prod.fst, S.limit⟩).yielded ∧
+    logOut (fetchT S).1.log = (fetch ⟨S.cfg.obj, S.cfg.disc, S.script.map Prod.fst, S.limit⟩).log ∧
+    (fetchT S).1.end_ = (fetch ⟨S.cfg.obj, S.cfg.disc, S.script.map Prod.fst, S.limit⟩).end_ :=
+  fetch_refines S hlife hp
+
+/-- **timed_tolerable_yields_all.** The old main theorem as a corollary: prompt answers and tolerable loss. -/
+theorem timed_tolerable_yields_all (cfg : Cfg) (segs : List Seg) (limit f : Nat) (sc : List (Outcome × Nat))
+    (hobj : cfg.obj = .segs segs) (hlife : 0 < cfg.life) (hp : Prompt cfg.life sc) (hfin : IsFinal segs f)
+    (hd : cfg.disc < segs.length) (ht : Tolerable (attempts limit) 0 (sc.map Prod.fst)) :
+    (fetchT ⟨cfg, limit, sc⟩).1.yielded = contents (segs.take (f + 1)) ∧ (fetchT ⟨cfg, limit, sc⟩).1.end_ = .done := by
+  obtain ⟨r1, _, r3⟩ := timed_refines_untimed ⟨cfg, limit, sc⟩ hlife hp
+  obtain ⟨u1, u2⟩ := fetch_yields_all_once_in_order segs cfg.disc limit f (sc.map Prod.fst) hfin hd ht
+  simp only [hobj] at r1 r3
+  exact ⟨r1.trans u1, r3.trans u2⟩
+
+/-- **timed_table_clean_at_end.**  When the fetch is over - however it ended - the pending-Interest table is a state
+    of the C03 model reached by a history `evs` in which no callback raised, no Interest is pending, the trie is empty
+    (C03 `pit_empty_at_quiescence`), and whatever arrives afterwards - the answers still in flight - changes the record
+    of no Interest (C03 `complete_at_most_once`): late answers are dropped. -/
+theorem timed_table_clean_at_end (S : SegFetchT.Scenario) :
+    ∃ evs, (fetchT S).2.σ = Pit.run .v1 evs ∧ (fetchT S).2.σ.errs = [] ∧ (fetchT S).2.σ.trie = [] ∧
+      ∀ (later : List Pit.Ev) (i : Nat) (s : Pit.IState), (fetchT S).2.σ.sts[i]? = some s →
+        (Pit.run .v1 (evs ++ later)).sts[i]? = some s := by
+  obtain ⟨_, hw⟩ := SegFetchT.fetch_good (ask S.cfg) (ask_ok S.cfg) S.limit _ (winv_init S.cfg S.script)
+  obtain ⟨_, hdone, ⟨evs, hreach⟩, _⟩ := hw
+  have hreach' : (fetchT S).2.σ = Pit.run .v1 evs := hreach
+  have hdone' : AllDone (fetchT S).2.σ := hdone
+  refine ⟨evs, hreach', ?_, ?_, ?_⟩
+  · rw [hreach']; exact C03.no_internal_error .v1 evs
+  · rw [hreach']
+    refine (C03.pit_empty_at_quiescence .v1 evs ?_).1
+    intro i hi
+    rw [← hreach'] at hi
+    obtain ⟨o, t, h⟩ := hdone' i _ hi
+    cases h
+  · intro later i s hs
+    obtain ⟨o, t, rfl⟩ := hdone' i s hs
+    rw [hreach'] at hs
+    exact C03.complete_at_most_once .v1 evs later i o t hs
+
+/-! ### the hypotheses are satisfiable, and what late answers do (concrete timed scenarios, lifetime 1000) -/
+section TimedExamples
+
+/-- three segments (contents 10, 11, 12; the last one final), discovery answered by segment 1, `retry_times` 3 -/
+def exCfg : Cfg := ⟨.segs [⟨10, none⟩, ⟨11, none⟩, ⟨12, some 2⟩], 1, 1000, 150⟩
+
+/-- * the answer to the first discovery Interest travels 1200 ms: that Interest times out at 1000, the retry (never
+      answered itself) is satisfied at 1200 by the late Data - same name;
+    * segment 1: the answer arrives exactly at the deadline (1200 + 1000): too late, the Interest times out, and the retry
+      sent in that instant is satisfied by it at once (its own answer, due at 3199, is dropped later). -/
+def exLate : SegFetchT.Scenario :=
+  ⟨exCfg, 3, [(.data, 1200), (.timeout, 0), (.data, 0), (.data, 1000), (.data, 999)]⟩
+
+example : (fetchT exLate).1 =
+    ⟨[10, 11, 12], [(.disc, .timeout), (.disc, .data 4), (.seg 0, .data 2), (.seg 1, .timeout), (.seg 1, .data 4),
+      (.seg 2, .data 6)], .done⟩ := by decide
+example : (fetchT exLate).2.sent = [(.disc, 0), (.disc, 1000), (.seg 0, 1200), (.seg 1, 1200), (.seg 1, 2200), (.seg 2, 2200)] := by
+  decide
+
+/-- timed_yields_all_once_in_order: its hypotheses hold for `exLate` although two answers came too late -/
+example : (∀ e ∈ (fetchT exLate).1.log, Benign e.2) ∧
+    ¬ ∃ pre req, (fetchT exLate).1.log = pre ++ List.replicate (attempts 3) (req, Pit.Outcome.timeout) := by
+  refine ⟨?_, fun h => ?_⟩
+  · have h : (fetchT exLate).1.log = [(.disc, .timeout), (.disc, .data 4), (.seg 0, .data 2), (.seg 1, .timeout),
+        (.seg 1, .data 4), (.seg 2, .data 6)] := by decide
+    rw [h]
+    intro e he
+    simp only [List.mem_cons, List.not_mem_nil, or_false] at he
+    rcases he with rfl | rfl | rfl | rfl | rfl | rfl <;> simp [Benign, idValid]
+  · have := (timed_timeout_iff exLate).mpr h
+    rw [show (fetchT exLate).1.end_ = .done by decide] at this
+    cases this
+example : IsFinal [⟨10, none⟩, ⟨11, none⟩, (⟨12, some 2⟩ : Seg)] 2 := by
+  refine ⟨⟨_, rfl, rfl⟩, ?_⟩
+  intro j s hj hs
+  rcases j with _ | _ | j
+  · simp at hs; subst hs; decide
+  · simp at hs; subst hs; decide
+  · omega
+
+/-- timed_timeout_iff: both attempts for segment 0 are answered, each answer arriving exactly when the *next* deadline
+    falls (2000 ms): every awaitable times out and the fetch fails, the answers are dropped afterwards -/
+example : (fetchT ⟨exCfg, 2, [(.data, 0), (.data, 2000), (.data, 2000)]⟩).1 =
+    ⟨[], [(.disc, .data 4), (.seg 0, .timeout), (.seg 0, .timeout)], .timeout⟩ := by decide
+
+/-- timed_propagates: a Nack that comes too late for the attempt it answers ends the fetch through the retry;
+    an invalid Data likewise -/
+example : (fetchT ⟨exCfg, 3, [(.data, 0), (.nack, 1500), (.timeout, 0)]⟩).1 =
+    ⟨[], [(.disc, .data 4), (.seg 0, .timeout), (.seg 0, .nack 150)], .nack⟩ := by decide
+example : (fetchT ⟨exCfg, 3, [(.data, 0), (.invalid, 1001), (.timeout, 0)]⟩).1 =
+    ⟨[], [(.disc, .data 4), (.seg 0, .timeout), (.seg 0, .data 3)], .invalid⟩ := by decide
+
+/-- the late discovery Data (segment 1, 2500 ms) satisfies the Interest for segment 1 while that is pending -/
+example : (fetchT ⟨exCfg, 3, [(.data, 2500), (.timeout, 0), (.data, 0), (.data, 0), (.timeout, 0), (.data, 0)]⟩).1 =
+    ⟨[10, 11, 12], [(.disc, .timeout), (.disc, .timeout), (.disc, .data 4), (.seg 0, .data 2), (.seg 1, .data 4),
+      (.seg 2, .data 6)], .done⟩ := by decide
+
+/-- lifetime 0: `wait_for(future, 0)` gives up at once, whatever is answered -/
+example : (fetchT ⟨⟨.unseg 7, 0, 0, 150⟩, 2, []⟩).1 = ⟨[], [(.disc, .timeout), (.disc, .timeout)], .timeout⟩ := by decide
+
+/-- timed_interest_outcome / timed_data_is_genuine: the world the fetch starts in satisfies `WInv` -/
+example : WInv exCfg { script := exLate.script } := winv_init _ _
+
+/-- timed_refines_untimed: a prompt script (delays below the lifetime, or no answer at all) -/
+example : Prompt 1000 [(.data, 999), (.timeout, 5000), (.nack, 0)] := by
+  intro e he
+  simp only [List.mem_cons, List.not_mem_nil, or_false] at he
+  rcases he with rfl | rfl | rfl <;> simp
+example : (fetchT ⟨exCfg, 3, [(.data, 999), (.timeout, 5000), (.data, 500)]⟩).1.yielded = [10, 11, 12] ∧
+    logOut (fetchT ⟨exCfg, 3, [(.data, 999), (.timeout, 5000), (.data, 500)]⟩).1.log =
+      (fetch ⟨exCfg.obj, 1, [.data, .timeout, .data], 3⟩).log := by decide
+
+end TimedExamples
 
 end Ndn.C19
